@@ -385,27 +385,38 @@ func runC15(c *an.Ctx) {
 	// ---- R6 @ipMatch masks
 	if im := c.Fn("R6", "internal/operators.newIPMatch"); im != nil {
 		n := 0
+		// the completion may sit in newIPMatch or in a private helper it calls (withHostMask(entry))
+		fns := []*ssa.Function{im}
 		an.Instrs(im, func(in ssa.Instruction) {
-			b, ok := in.(*ssa.BinOp)
-			if !ok || b.Op.String() != "+" {
-				return
+			if cc := an.CallOf(in); cc != nil {
+				if h := cc.StaticCallee(); h != nil && h != im && relPkg(h) == "internal/operators" && len(h.Blocks) > 0 && !token.IsExported(h.Name()) {
+					fns = append(fns, h)
+				}
 			}
-			cst, ok := b.Y.(*ssa.Const)
-			if !ok {
-				return
-			}
-			mask := strings.Trim(an.Expr(cst), "\"")
-			if mask != "/32" && mask != "/128" {
-				return
-			}
-			n++
-			subject := an.Expr(b.X)
-			wantColon := mask == "/128"
-			need := an.Atom{L: "strings.Contains(" + subject + ",\":\")", Op: "==", R: map[bool]string{true: "true", false: "false"}[wantColon]}
-			ok2 := everyFeasiblePathHas(im, b, need)
-			c.Check(ok2, "R6", "@ipMatch appends "+mask+" only to "+map[bool]string{true: "IPv6", false: "IPv4"}[wantColon]+" entries", b.Pos(), "every feasible path carries "+need.String(),
-				"a bare entry can receive "+mask+" although it "+map[bool]string{true: "contains no ':'", false: "contains ':' (e.g. ::ffff:10.0.0.1)"}[wantColon]+": the entry then denotes a different network than the address written")
 		})
+		for _, im := range fns {
+			an.Instrs(im, func(in ssa.Instruction) {
+				b, ok := in.(*ssa.BinOp)
+				if !ok || b.Op.String() != "+" {
+					return
+				}
+				cst, ok := b.Y.(*ssa.Const)
+				if !ok {
+					return
+				}
+				mask := strings.Trim(an.Expr(cst), "\"")
+				if mask != "/32" && mask != "/128" {
+					return
+				}
+				n++
+				subject := an.Expr(b.X)
+				wantColon := mask == "/128"
+				need := an.Atom{L: "strings.Contains(" + subject + ",\":\")", Op: "==", R: map[bool]string{true: "true", false: "false"}[wantColon]}
+				ok2 := everyFeasiblePathHas(im, b, need)
+				c.Check(ok2, "R6", "@ipMatch appends "+mask+" only to "+map[bool]string{true: "IPv6", false: "IPv4"}[wantColon]+" entries", b.Pos(), "every feasible path carries "+need.String(),
+					"a bare entry can receive "+mask+" although it "+map[bool]string{true: "contains no ':'", false: "contains ':' (e.g. ::ffff:10.0.0.1)"}[wantColon]+": the entry then denotes a different network than the address written")
+			})
+		}
 		c.MinCount("R6", "host-mask completions in newIPMatch", n, 2)
 	}
 }
